@@ -275,9 +275,31 @@ def run_case(c):
             elif op["op"] == "rename":
                 if not is_lambda:
                     st["defpos"] = def_positions(before)
+                # bystanders (seeded/C20_r3): a sub space that derives the cells as it is, and one that overrides
+                # it with a definition of its own; the rename reaches both and changes nothing but the name there
+                by = None
+                if op.get("bystanders") and not is_lambda:
+                    k += 1
+                    old = cells.name
+                    plain = m.new_space("P%d" % k, bases=S)
+                    over = m.new_space("O%d" % k, bases=S)
+                    own = "def %s(q=3):\n    \"\"\"own doc\"\"\"\n    return ('own', q)    # override\n" % old
+                    over.cells[old].formula = own
+                    by = {"old": old, "own_before": over.cells[old].formula.source, "own_text": own,
+                          "plain_before": plain.cells[old].formula.source}
                 cells.rename(op["name"])
                 st["snap"] = snapshot(cells, argsets)
                 st["in_space"] = op["name"] in S.cells and S.cells[op["name"]] is cells
+                if by is not None:
+                    nn = op["name"]
+                    by["own_after"] = over.cells[nn].formula.source if nn in over.cells else None
+                    by["own_defined"] = bool(nn in over.cells and over.cells[nn]._is_defined())
+                    by["own_value"] = repr(over.cells[nn]()) if nn in over.cells else None
+                    by["own_doc"] = over.cells[nn].doc if nn in over.cells else None
+                    by["plain_after"] = plain.cells[nn].formula.source if nn in plain.cells else None
+                    by["plain_derived"] = bool(nn in plain.cells and plain.cells[nn]._is_derived())
+                    by["names"] = [list(over.cells), list(plain.cells)]
+                    st["bystanders"] = by
             elif op["op"] == "redefine":
                 # @mx.defcells on a def named like an existing cells of the current space
                 mx.cur_model(m.name)
